@@ -19,8 +19,10 @@ from vlib import props  # noqa: E402
 
 
 def sh(cmd, cwd=None, timeout=3600):
+    # evidence of runs against a patched tree must never land in /verif/evidence (that directory holds the records of
+    # the unchanged tree only)
     p = subprocess.run(cmd, shell=True, cwd=cwd, capture_output=True, text=True, timeout=timeout,
-                       env=dict(os.environ, CARGO_NET_OFFLINE="true"))
+                       env=dict(os.environ, CARGO_NET_OFFLINE="true", MW_EVIDENCE_DIR=os.path.join(ROOT, ".generated", "seed-evidence")))
     return p.returncode, p.stdout + p.stderr
 
 
